@@ -393,7 +393,7 @@ func parseNumber[D []byte | string](d D, neg, sepallowed bool) (Decimal, error) 
 		}
 	}
 
-	if !caneof {
+	if !caneof || !sawdig {
 		return Decimal{}, parseNumberSyntaxError{}
 	}
 
